@@ -307,7 +307,11 @@ def _h1_response_bytes(marker: str, rsp: dict) -> dict:
 
 
 def _h2_response_spec(rsp: dict) -> dict:
-    out = {"delay": rsp.get("delay", 0), "headers": rsp["headers"], "gaps": rsp.get("gaps", []),
+    headers = rsp.get("headers") or []
+    if not any(h[0] == ":status" for h in headers):
+        # (the shrinker may drop fields; the status the oracle expects is rsp["status"])
+        headers = [[":status", str(rsp.get("status", 200))]] + [h for h in headers if not h[0].startswith(":")]
+    out = {"delay": rsp.get("delay", 0), "headers": headers, "gaps": rsp.get("gaps", []),
            "chunks": [chunk_bytes(c).decode("latin-1") for c in rsp.get("chunks", [])],
            "trailers": rsp.get("trailers"), "rst": rsp.get("rst"), "early": rsp.get("early"),
            "end_with_empty_data": rsp.get("end_with_empty_data")}
@@ -449,7 +453,12 @@ def run(sc, keep_log=False):
                     obs.waited.update(hc.stream_queue.keys())
             if type(event).__name__ == "ConnectionClosed" and event.connection is not handler.client:
                 obs.server_close_events += 1
+                try:
+                    obs.server_close_seen.add(tuple(event.connection.sockname))
+                except Exception:  # pragma: no cover
+                    pass
         obs.server_close_events = 0
+        obs.server_close_seen = set()
         w.event_listeners.append(on_event)
 
         def planner(host, port, n, proto):
@@ -512,6 +521,13 @@ def run(sc, keep_log=False):
             obs.queued_at_quiescence = sorted(sid for hc in obs.h2clients for sid in hc.stream_queue)
             obs.tcp_ended_at_quiescence = sum(1 for o in obs.origins if o.sim_conn.peer_eof or o.sim_conn.peer_reset)
             obs.server_close_events_at_quiescence = obs.server_close_events
+            # upstream connections the ORIGIN has ended (FIN/RST) whose ConnectionClosed never reached the layers (only
+            # consulted for streams that are still without any outcome, so "the proxy closed it first" is not a case)
+            obs.close_never_delivered = {
+                o.ordinal for o in obs.origins
+                if (o.sim_conn.peer_eof or o.sim_conn.peer_reset)
+                and tuple(o.sim_conn.extra["sockname"]) not in obs.server_close_seen}
+        obs.close_never_delivered = set()
         obs.tcp_ended_at_quiescence = 0
         obs.server_close_events_at_quiescence = 0
         cl.before_close = at_quiescence
@@ -706,7 +722,10 @@ def oracle(sc, obs):
             if upstream_fault is not None and k not in up and (sid in obs.queued_at_quiescence or sid in obs.waited):
                 # was waiting in Http2Client.stream_queue when the upstream connection ended (GOAWAY / close)
                 key = {"kind": "queued_when_upstream_connection_ended"}
-            elif upstream_fault == "tcp_close" and seen < tcp_ended:
+            elif (upstream_fault == "tcp_close" and seen < tcp_ended) or \
+                    (k in up and up[k][0][0].ordinal in obs.close_never_delivered):
+                # the origin ended the connection this stream was on (scripted TCP close / reset, or an HTTP/1 origin
+                # that leaves instead of answering), but no ConnectionClosed for it ever reached the layers
                 key = {"kind": "upstream_close_event_never_delivered", "eager_tasks": bool(sc.get("eager"))}
             else:
                 key = {"kind": "other", "waited_for_capacity": sid in obs.waited, "still_queued": sid in obs.queued_at_quiescence,
@@ -759,8 +778,15 @@ def oracle(sc, obs):
                 # context that tells the known early-response / server-close race (F5 of C01/C03: streamed request whose
                 # request hook is still pending when the complete answer and the origin's close arrive) from anything else
                 pol = sc.get("policy", [])
-                pending = any(p["hook"] == "requestheaders" and p.get("stream") and p["s"] == k for p in pol) and \
-                    any(p["hook"] == "request" and p.get("latency", 0) > 0 and p["s"] == k for p in pol)
+                streamed = any(p["hook"] == "requestheaders" and p.get("stream") and p["s"] == k for p in pol)
+                lat = max([p.get("latency", 0) for p in pol if p["hook"] == "request" and p["s"] == k] or [0])
+                pending = streamed and lat > 0
+                if streamed and okind == "h1" and not pending and k in up:
+                    # same race without a hook: the origin answered (and closed) before the CLIENT had finished the
+                    # streamed request, so the request is still open at mitmproxy when the answer and the close arrive
+                    rt = next((e[0] for e in up[k][0][0].log if len(e) > 2 and e[2] == "reply"), None)
+                    if rt is not None and sent.get("t_end") is not None and rt <= sent["t_end"]:
+                        pending = True
                 add("client_response_wrong", {"what": "reset_instead_of_response", "origin": okind,
                                               "streamed_request_hook_pending_at_answer": bool(pending and okind == "h1")},
                     f"stream {k}: the origin answered normally but the client stream was reset (code {ob['reset']})")
@@ -862,6 +888,10 @@ def oracle(sc, obs):
             P_("req_window_blocked")
         if sc["origin"].get("settings_delay"):
             P_("late_settings")
+        n_empty = sum(getattr(o_, "empty_data_frames", 0) for o_ in obs.origins) + cl.empty_data_frames
+        if n_empty:
+            # spurious zero-length DATA frames (legal, ignored by the peers): BufferedH2Connection.send_data on a negative window
+            P_("empty_data_frames_ignored", n_empty)
         if any(r_.get("early") for r_ in responses.values()):
             P_("early_response")
     ci = (sc["client"].get("settings") or {}).get("iws")
